@@ -283,6 +283,15 @@ def run_small(case):
     if not np.array_equal(B1.cms.reshape(-1), b):
         raise Violation(f"{lab}: an add to the merged sketch changed the argument of the earlier merge", "merge-mutates-other")
     A1.cms[:] = a_tab
+    # a sketch merged into itself behaves like a merge of two equal but separate sketches (same kernel, so equal cells)
+    S, T1, T2 = (build(kind, case["depth"], case["width"], case["max_count"], case["num_reserved"]) for _ in range(3))
+    for s_ in (S, T1, T2):
+        s_.cms[:] = a.reshape(case["depth"], case["width"])
+    sut(S.merge, S)
+    sut(T1.merge, T2)
+    if not np.array_equal(S.cms, T1.cms):
+        i_ = int(np.nonzero(np.array(S.cms).reshape(-1) != np.array(T1.cms).reshape(-1))[0][0])
+        raise Violation(f"{lab}: s.merge(s) gives counter {int(np.array(S.cms).reshape(-1)[i_])} in cell {i_} (was {int(a[i_])}), merging an equal separate sketch gives {int(np.array(T1.cms).reshape(-1)[i_])}", "self-merge")
     if kind == "linear":
         if not np.array_equal(A1.cms, B2.cms):
             raise Violation(f"{lab}: a.merge(b) and b.merge(a) give different tables", "merge-not-commutative")
